@@ -20,7 +20,7 @@ def _sel_stub(it, kind="Call", all_captures=(), focus=False):
 
 
 # ---------------------------------------------------------------------------------------------
-@unit("Capture", ["C02", "C07", "C11"], [I + ":Capture.__init__", I + ":Capture.set", I + ":Capture.accum", I + ":Capture.snapshot",
+@unit("Capture", ["C02", "C07", "C11", "C03", "C04", "C12"], [I + ":Capture.__init__", I + ":Capture.set", I + ":Capture.accum", I + ":Capture.snapshot",
                                        I + ":Capture.value", I + ":Capture.name"])
 def u_capture(c):
     """set overwrites with exactly one (name, value); accum appends; snapshot is a fresh equal copy sharing
@@ -83,7 +83,7 @@ def _mk(it, clsname, sel, **kw):
     return it.call(it.get_global(I, clsname), [sel], kw)
 
 
-@unit("fork", ["C03", "C07", "C02"], [I + ":BaseAccumulator.fork", I + ":BaseAccumulator.__init__", I + ":Total.__init__", I + ":Immediate.__init__"])
+@unit("fork", ["C03", "C07", "C02", "C04", "C09", "C12", "C13"], [I + ":BaseAccumulator.fork", I + ":BaseAccumulator.__init__", I + ":Total.__init__", I + ":Immediate.__init__"])
 def u_fork(c):
     """fork(): fresh object of the same class, template False, parent = None if self.template else self,
     empty captures/children, same handler objects, intercept/trigger/close None exactly when the original's are;
@@ -131,7 +131,7 @@ def u_fork(c):
             c.prove("fork2/immediate-no-children", f1.fields["children"] == [])
 
 
-@unit("build", ["C03", "C07", "C02", "C12"], [I + ":BaseAccumulator.build", I + ":BaseAccumulator.getcap"], mode="bounded", bound="parent chain depth <= 3")
+@unit("build", ["C03", "C07", "C02", "C12", "C04", "C09", "C13"], [I + ":BaseAccumulator.build", I + ":BaseAccumulator.getcap"], mode="bounded", bound="parent chain depth <= 3")
 def u_build(c):
     """build() = union of the capture dictionaries along the parent chain; the nearest level wins on a clash;
     nothing is modified; for a parent-less accumulator it is its own dictionary."""
@@ -186,7 +186,7 @@ def u_build(c):
                 and set(res2.keys()) == keys | {"late"})
 
 
-@unit("log", ["C02", "C07"], [I + ":Immediate.log", I + ":Total.log", I + ":BaseAccumulator.getcap", I + ":Capture.set", I + ":Capture.accum"])
+@unit("log", ["C02", "C07", "C03", "C04", "C11", "C12", "C16"], [I + ":Immediate.log", I + ":Total.log", I + ":BaseAccumulator.getcap", I + ":Capture.set", I + ":Capture.accum"])
 def u_log(c):
     """Immediate.log: captures'[el.capture] holds exactly the last (name, value); Total.log: the capture is
     extended by (name, value); every other key is unchanged (same objects)."""
